@@ -103,10 +103,24 @@ def run_case(ctx, case):
     u = np.array([complex(float(z[0]), float(z[1])) for z in case["u"]], complex)
     d = np.array([complex(float(z[0]), float(z[1])) for z in case["d"]], complex)
     # ---- implementation
+    mutated = None
     try:
         SA = impl_smat(As)
         SB = impl_smat(Bs)
+        snap = [x.copy() for x in (SA.S11, SA.S12, SA.S21, SA.S22, SB.S11, SB.S12, SB.S21, SB.S22)]
         C = SA.add(SB)
+        Csnap = [x.copy() for x in (C.S11, C.S12, C.S21, C.S22)]
+        now = (SA.S11, SA.S12, SA.S21, SA.S22, SB.S11, SB.S12, SB.S21, SB.S22)
+        if any(a.shape != b.shape or not np.array_equal(a, b) for a, b in zip(snap, now)):
+            mutated = "operands changed by add()"
+        else:
+            # the join is a function of its operands: joining the same objects again gives the same blocks,
+            # and the first result is not altered by the second call
+            C2 = SA.add(SB)
+            if any(not np.allclose(a, b, atol=1e-12) for a, b in zip(Csnap, (C2.S11, C2.S12, C2.S21, C2.S22))):
+                mutated = "second add() of the same operands differs from the first"
+            elif any(not np.array_equal(a, b) for a, b in zip(Csnap, (C.S11, C.S12, C.S21, C.S22))):
+                mutated = "an earlier result changed when the operands were joined again"
         waves = SA.int_complete(SB, u, d)
         waves = (np.asarray(waves[0]).reshape(len(As), -1), np.asarray(waves[1]).reshape(len(As), -1))
         out_impl = "ok"
@@ -137,6 +151,9 @@ def run_case(ctx, case):
         return
     if out_impl != "ok":
         ctx.violation(f"C18:unexpected-{out_impl}", f"add/int_complete raised {out_impl} on a well-posed pair", replay)
+        return
+    if mutated:
+        ctx.violation("C18:operand-reuse", f"join is not a pure function of its operands: {mutated}", replay)
         return
     # ---- oracle (independent of the model): pair equations
     res = oracle_pair(As, Bs, C, waves, u, d)
